@@ -130,6 +130,34 @@ defprog! {
    }
 }
 
+// one large pre-filled relation with several indices, cheap rules: exercises the initial
+// (parallel) indexing of many rows, the per-worker splitting of long scans, negation and a
+// key-less scan over a big relation
+defprog! {
+   name: bulk_rows;
+   timeouts: no;
+   positive: false;
+   tags: ["c02", "c05", "c20"];
+   rels: {
+      relation bulk(u32, u32) [input];
+      relation probe(u32) [input];
+      relation by_first(u32, u32) [];
+      relation by_second(u32) [];
+      relation present(u32) [];
+      relation absent(u32) [];
+      relation high(u32) [];
+   }
+   gens: [("big", gens::big)];
+   rules: {
+      by_first(x, y) <-- probe(x), bulk(x, y);
+      by_second(x) <-- probe(y), bulk(x, y), if x % 16 == 0;
+      present(x) <-- bulk(x, _), if x % 5 == 0;
+      absent(x) <-- probe(x), !bulk(x, _);
+      high(x) <-- bulk(x, 10), if *x > 200;
+      probe(x + 250) <-- probe(x), if *x < 8;
+   }
+}
+
 pub fn all() -> Vec<ProgramDef> {
-   vec![tc::def(), tc_nonlinear::def(), same_gen::def(), multi_writer::def(), cross_noindex::def(), triangle::def()]
+   vec![tc::def(), tc_nonlinear::def(), same_gen::def(), multi_writer::def(), cross_noindex::def(), triangle::def(), bulk_rows::def()]
 }
